@@ -57,6 +57,14 @@ func WithObjectHeaderBinary(b []byte) Option {
 	}
 }
 
+// WithRequest sets the original request to take X-headers from when the
+// checked message does not carry them itself (see [WithObjectHeaderBinary]).
+func WithRequest(v Request) Option {
+	return func(c *cfg) {
+		c.req = v
+	}
+}
+
 func WithCID(v cid.ID) Option {
 	return func(c *cfg) {
 		c.cnr = v
